@@ -292,7 +292,8 @@ PROPS["C17"] = dict(
                  "C04 Populations contracts (strictly better candidate always survives; exactly one population replaces the two; "
                  "survivor is one of the two). Kani: GeometricCooling::map = value * alpha over all f64 (complete)."),
     verus=[dict(name="acceptance", template="contracts/C17/acceptance.vrs",
-                expect=["<ExponentialAnnealingAcceptance as Component<P>>::execute"])],
+                expect=["<ExponentialAnnealingAcceptance as Component<P>>::execute"]),
+           dict(name="mapping", template="contracts/C17/mapping.vrs", expect=["mapping", "<GeometricCooling<L> as Component<P>>::execute"])],
     kani=[dict(files=["contracts/C17/c17.rs"])],
     native=[dict(files=["contracts/C17/c17_native.rs"],
                  harnesses={"c17_native_metropolis_grid": dict(anchor="ExponentialAnnealingAcceptance::execute",
